@@ -7,7 +7,7 @@ SPEC = {
     "suites": [
         Suite(name="worker", harness="vh_worker", runner="worker", godev=True,
               model_deps=["theories/Model/Worker.vo"],
-              quick_n=400, thorough_n=6000,
+              quick_n=400, thorough_n=2400,
               rule="TODO"),
     ],
     "technique": "TODO",
